@@ -236,8 +236,63 @@ fn history(st: &mut Stats, rng: &mut Rng) {
     if log.len() > 8 { st.sample(|| format!("history {:?}", log)); }
 }
 
+/// The library declares its arithmetic for every primitive integer type as well (traits.rs: Number for usize u8 ... i64).
+/// Operations whose textbook result is representable must deliver it - no detour through values that are not (0 - s in an
+/// unsigned type). Visible as a wrong value, or as an arithmetic-overflow panic in the `checked` profile.
+fn integer_types<T>(st: &mut Stats, rng: &mut Rng, name: &str, of: impl Fn(u64) -> T, to: impl Fn(T) -> u64)
+where T: Copy + ohsl::Number + PartialEq + std::fmt::Debug + 'static {
+    st.next_case();
+    let (r, c) = (rng.usize(0, 4), rng.usize(0, 4));
+    let s = rng.int(1, 3) as u64;
+    let a: Vec<Vec<u64>> = (0..r).map(|_| (0..c).map(|_| rng.int(3, 9) as u64).collect()).collect();
+    let b: Vec<Vec<u64>> = (0..r).map(|_| (0..c).map(|_| rng.int(0, 3) as u64).collect()).collect();
+    let mk = |d: &Vec<Vec<u64>>| { let mut m = Matrix::<T>::new(r, c, of(0)); for i in 0..r { for j in 0..c { m[(i, j)] = of(d[i][j]); } } m };
+    let (ma, mb) = (mk(&a), mk(&b));
+    let desc = || format!("T={} A={:?} B={:?} s={}", name, a, b, s);
+    let mut chk = |st: &mut Stats, op: &str, out: Outcome<Matrix<T>>, f: &dyn Fn(usize, usize) -> u64| {
+        st.eval();
+        match out {
+            Outcome::Ok(m) => { if m.rows() != r || m.cols() != c || (0..r).any(|i| (0..c).any(|j| to(m[(i, j)]) != f(i, j))) { st.violation(&format!("C03:{}:{}:wrong-result", op, name), format!("{} gives a wrong entry or shape; {}", op, desc())); } }
+            o => st.violation(&format!("C03:{}:{}:refused-representable", op, name), format!("{} {} although every entry of the result is representable; {}", op, o.describe(), desc())),
+        }
+    };
+    chk(st, "add(&M,&M)", catch(|| &ma + &mb), &|i, j| a[i][j] + b[i][j]);
+    chk(st, "sub(&M,&M)", catch(|| &ma - &mb), &|i, j| a[i][j] - b[i][j]);
+    chk(st, "sub(M,M)", catch(|| ma.clone() - mb.clone()), &|i, j| a[i][j] - b[i][j]);
+    chk(st, "mul(&M,s)", catch(|| &ma * of(s)), &|i, j| a[i][j] * s);
+    chk(st, "div(&M,s)", catch(|| &(&ma * of(s)) / of(s)), &|i, j| a[i][j]);
+    chk(st, "add_assign(s)", catch(|| { let mut m = ma.clone(); m += of(s); m }), &|i, j| a[i][j] + s);
+    chk(st, "sub_assign(s)", catch(|| { let mut m = ma.clone(); m -= of(s); m }), &|i, j| a[i][j] - s);
+    chk(st, "mul_assign(s)", catch(|| { let mut m = ma.clone(); m *= of(s); m }), &|i, j| a[i][j] * s);
+    chk(st, "add_assign(&M)", catch(|| { let mut m = ma.clone(); m += &mb; m }), &|i, j| a[i][j] + b[i][j]);
+    chk(st, "sub_assign(&M)", catch(|| { let mut m = ma.clone(); m -= &mb; m }), &|i, j| a[i][j] - b[i][j]);
+    chk(st, "sub_assign(M)", catch(|| { let mut m = ma.clone(); m -= mb.clone(); m }), &|i, j| a[i][j] - b[i][j]);
+    // product with the transposed B (entries <= 9*3*4 = 108: fits u8)
+    st.eval();
+    match catch(|| &ma * &mb.transpose()) {
+        Outcome::Ok(m) => { if m.rows() != r || m.cols() != r || (0..r).any(|i| (0..r).any(|j| to(m[(i, j)]) != (0..c).map(|k| a[i][k] * b[j][k]).sum::<u64>())) { st.violation(&format!("C03:mul(&M,&M):{}:wrong-result", name), format!("A*B^T wrong; {}", desc())); } }
+        o => st.violation(&format!("C03:mul(&M,&M):{}:refused-representable", name), format!("A*B^T {}; {}", o.describe(), desc())),
+    }
+    st.count(&format!("integer-type-cases:{}", name));
+    st.nontrivial(hmix(hash_str(name), rng.u64()));
+}
+
+/// calls that a later, unrelated call must not feel: norms of matrices whose column sums overflow, that hold NaN / inf /
+/// -0.0 / subnormals, of extreme shapes; results are not judged here (the exact checks that follow on the same thread are)
+fn hostile_interlude(st: &mut Stats, rng: &mut Rng) {
+    let (r, c) = (rng.usize(1, 6), rng.usize(1, 9));
+    let mut m = Matrix::<f64>::new(r, c, 0.0);
+    for i in 0..r { for j in 0..c { m[(i, j)] = match rng.below(8) { 0 => 1e308, 1 => -1e308, 2 => f64::NAN, 3 => f64::INFINITY, 4 => -0.0, 5 => 5e-324, 6 => 1.7e308, _ => rng.sym() }; } }
+    if rng.bool() { let j = rng.usize(0, c - 1); for i in 0..r { m[(i, j)] = if i % 2 == 0 { 1e308 } else { -1e308 }; } }
+    for k in 0..6 { let _ = catch(|| match k { 0 => m.norm_1(), 1 => m.norm_inf(), 2 => m.norm_max(), 3 => m.norm_frob(), 4 => m.norm_p(3.0), _ => m.norm_p(1.0) }); }
+    let _ = catch(|| (&m * &m.transpose()).norm_1());
+    let _ = catch(|| Matrix::<f64>::new(0, 3, 1.0).norm_1());
+    st.count("hostile-interludes");
+}
+
 fn norms(st: &mut Stats, rng: &mut Rng) {
     st.next_case();
+    if rng.chance(0.15) { hostile_interlude(st, rng); }
     let (r, c) = (rng.usize(0, 8), rng.usize(0, 8));
     let a: Vec<Vec<f64>> = (0..r).map(|_| (0..c).map(|_| rng.int(-20, 20) as f64 * if rng.chance(0.3) { 0.5 } else { 1.0 }).collect()).collect();
     let m = { let mut m = Matrix::<f64>::new(r, c, 0.0); for i in 0..r { for j in 0..c { m[(i, j)] = a[i][j]; } } m };
@@ -327,11 +382,20 @@ pub fn run(ctx: &Ctx) -> Report {
         if u < nprod { let (r, k, c) = ((u / 81) as usize, ((u / 9) % 9) as usize, (u % 9) as usize); for _ in 0..reps { products(st, rng, r, k, c); } }
         else if u < nprod + nshape { let v = u - nprod; for _ in 0..reps { shape_ops(st, rng, (v / 9) as usize, (v % 9) as usize); } }
         else if u < nprod + nshape + nhist { for _ in 0..10 { history(st, rng); } }
-        else { for _ in 0..40 { norms(st, rng); } }
+        else {
+            for _ in 0..40 { norms(st, rng); }
+            for _ in 0..4 {
+                integer_types::<u8>(st, rng, "u8", |v| v as u8, |v| v as u64);
+                integer_types::<u32>(st, rng, "u32", |v| v as u32, |v| v as u64);
+                integer_types::<usize>(st, rng, "usize", |v| v as usize, |v| v as u64);
+                integer_types::<i8>(st, rng, "i8", |v| v as i8, |v| v as u64);
+                integer_types::<i64>(st, rng, "i64", |v| v as i64, |v| v as u64);
+            }
+        }
     });
     let mut rep = Report::new(stats,
         "exhaustive shapes: A(r x k)*B(k x c) and A*v for all (r,k,c) in [0,8]^3; all unary/binary operators, compound assignments, transpose (both), eye, clone, new, clear, fills (every band offset -r-1..c+1), get/set/fill row/col for every index, swap_rows every pair, delete_row every row, resize to every (r',c') in [0,8]^2 for all (r,c) in [0,8]^2, random Rat entries (60 draws quick, 3000 thorough); random histories (<=40 steps of 26 editing operations) in lock step with a Vec<Vec<Rat>> model comparing shape, every entry, numel and private storage length after every step; f64 norms on integer/half-integer data. Every case is non-trivial (a judged operation on generic data); distinct = distinct (shape, draw) hashes");
-    rep.assumptions = vec!["only conformable/in-range calls are made here (mismatches belong to C20)".into(), "norm_p/norm_frob relative tolerance 16*(r*c+2)*u; norm_1/inf/max exact on this data".into()];
+    rep.assumptions = vec!["only conformable/in-range calls are made here (mismatches belong to C20)".into(), "integer element types (u8,u32,usize,i8,i64: the library declares Number for them): only operations whose textbook result is representable; an overflow on the way is visible as a panic in the checked profile and as a wrong value otherwise".into(), "hostile interludes (norms of matrices with overflowing column sums, NaN, inf, subnormals) run on the monitor threads between judged cases: state left behind by one call must not reach a later one".into(), "norm_p/norm_frob relative tolerance 16*(r*c+2)*u; norm_1/inf/max exact on this data".into()];
     rep.min_nontrivial = 1000;
     rep.exhaustive = false;
     rep.extra.set("exhaustive_parts", crate::json::J::Arr(vec![crate::json::J::s("product shapes (r,k,c) in [0,8]^3"), crate::json::J::s("operator/editing shapes (r,c) in [0,8]^2 with every index/offset/target shape")]));
